@@ -18,6 +18,7 @@ reachable state is one, so the one-command theorems below hold after every
 history.
 -/
 import TraitsVerif.Lemmas.SyncTwoSided
+import TraitsVerif.Lemmas.SyncHook
 namespace TraitsVerif.Props.C20
 open TraitsVerif TraitsVerif.Py TraitsVerif.Model TraitsVerif.Model.Sync
 variable {α : Type}
@@ -90,7 +91,9 @@ instance (w : World α) (p : Pair) : Decidable (NoRevisit w p) := by unfold NoRe
 
 /-- **Convergence of in-place list mutations** — `C05_replay` applied to the
 partner.  From any state with empty lock tables, `p` and `q` `List` traits, `q`
-a partner of `p` holding an equal list, the items handler registered on `p`:
+a partner of `p` holding an equal list, the items handler registered on `p`
+(true in every reachable state: `C20_items_handler_registered`,
+`C20_converge_list_reachable`):
 for every `TraitList` mutator call on `p`'s list that succeeds with an event
 `e` (integer index or extended slice), if `q`'s item validator stores the added
 items unchanged and the propagation reaches no trait twice, then the call
@@ -117,6 +120,40 @@ theorem C20_noRevisit_hub (w : World α) (p : Pair)
   obtain ⟨d, hd⟩ : ∃ d, w.edges.length + 1 = d + 2 := ⟨w.edges.length - 1, by omega⟩
   rw [hd]
   exact visit_hub_nodup w.edges p d hnd hp hback
+
+/-- **The items handler is registered wherever it is needed** (by induction
+over histories; registration rule of the repaired `sync_trait`, finding F61):
+start from any state with empty lock tables in which every `List` trait with a
+`List` partner has `_sync_trait_items_modified` registered (e.g. no links at
+all); after every history of assignments, mutations, additions and removals of
+links — mutual or one-way, between traits of any kinds, in any order, including
+`sync_trait` calls that raise — and partner deaths, it is registered on every
+`List` trait that has a `List` partner. -/
+theorem C20_items_handler_registered [DecidableEq α] (E : Sync.Env α) (w0 : World α) (cs : List (Cmd α))
+    (h0 : HookOk E w0) (hL0 : w0.locked = []) : HookOk E (World.run E w0 cs) :=
+  run_hookOk E cs w0 h0 hL0
+
+/-- **Convergence of in-place list mutations in every reachable state** —
+`C20_converge_list` without the hypothesis "the items handler is registered":
+after *any* history (from a state as in `C20_items_handler_registered`), for
+`List` traits `p`, `q` with `q` a partner of `p` holding an equal list, every
+mutator call on `p`'s list that succeeds with an event leaves both lists equal
+to its result — whatever other partners, of whatever kind, `p` has or had, in
+whatever order they were linked — provided `q`'s item validator stores the added
+items unchanged and the propagation reaches no trait twice. -/
+theorem C20_converge_list_reachable [DecidableEq α] (E : Sync.Env α) (w0 : World α) (cs : List (Cmd α))
+    (h0 : HookOk E w0) (hL0 : w0.locked = []) (p q : Pair) (op : Op α) (o : Out α) (e : Event α)
+    (he : (⟨p, q⟩ : Edge) ∈ (World.run E w0 cs).edges)
+    (hlp : E.isList p.2 = true) (hlq : E.isList q.2 = true)
+    (hstep : listStep (E.tl p) ((World.run E w0 cs).list p) op = .ok o) (hev : o.event = some e)
+    (heq : (World.run E w0 cs).list q = (World.run E w0 cs).list p)
+    (hfix : valAll (E.iv q) 0 e.added = .ok e.added)
+    (hnr : NoRevisit (World.run E w0 cs) p) :
+    ((World.run E w0 cs).mutate E p op).exc = none ∧ ((World.run E w0 cs).mutate E p op).ret = o.ret ∧
+      ((World.run E w0 cs).mutate E p op).world.val p = .l o.items ∧
+      ((World.run E w0 cs).mutate E p op).world.val q = .l o.items :=
+  mutate_converges E _ p q op o e (run_locked E w0 cs hL0) he hlp hlq
+    (run_hookOk E cs w0 h0 hL0 ⟨p, q⟩ he hlp hlq) hstep hev heq hfix hnr
 
 /-- A mutation that emits no event changed nothing (C05), so there is nothing to
 propagate: it touches only the mutated trait. -/
@@ -320,31 +357,6 @@ theorem C20_cycle_outcome :
     (triangle.mutate idEnv a (.append 9)).world.val c = .l [9, 9] ∧
     visit triangle.edges triangle.budget [] a = [a, b, c, c, b] := by decide
 
-/-- `a.l`'s first partner is not a `List` trait (`x`), its second (`c.l`) is:
-the items handler was never registered on `a.l`. -/
-def unhooked : World Int :=
-  ((fresh.link idEnv a (1, "x") false).world.link idEnv a c true).world
-
-/-- The statement without "the items handler is registered on `p`". -/
-def C20_converge_list_unhooked : Prop :=
-  ∀ (E : Sync.Env Int) (w : World Int) (p q : Pair) (op : Op Int) (o : Out Int) (e : Event Int),
-    w.locked = [] → (⟨p, q⟩ : Edge) ∈ w.edges → E.isList p.2 = true → E.isList q.2 = true →
-    listStep (E.tl p) (w.list p) op = .ok o → o.event = some e → w.list q = w.list p →
-    valAll (E.iv q) 0 e.added = .ok e.added → NoRevisit w p →
-    (w.mutate E p op).world.val q = .l o.items
-
-/-- **Negation witness (known finding F61).** `sync_trait` registers
-`_sync_trait_items_modified` only together with the first partner of a trait,
-and only if that partner is a `List` trait: after `a.sync_trait('l', b, 'x')`
-(which raises TraitError but leaves its registration) and `a.sync_trait('l', c)`,
-`a.l.append(1)` does not reach `c.l`. -/
-theorem C20_converge_list_fails_unhooked : ¬ C20_converge_list_unhooked := by
-  intro h
-  have := h idEnv unhooked a c (.append 1) { items := [1], event := some ⟨.idx 0, [], [1]⟩ } ⟨.idx 0, [], [1]⟩
-    (by decide) (by decide) (by decide) (by decide) (by rfl) (by rfl) (by decide) (by decide) (by decide)
-  revert this
-  decide
-
 /-! ### Non-vacuity: concrete states meeting the hypotheses -/
 
 /-- One mutual link between two lists, then `a.l = [1,2,3,4,5]`. -/
@@ -361,6 +373,23 @@ example :
       = some ([1, 2, 9, 4, 8], some (.slc 2 5 2, [3, 5], [9, 8])) ∧
     (linked.mutate idEnv a (.setSlice ⟨some 4, some 0, some (-2)⟩ [8, 9])).world.val b = .l [1, 2, 9, 4, 8] ∧
     (linked.mutate idEnv b (.delSlice ⟨none, none, some (-2)⟩)).world.val a = .l [2, 4] := by decide
+
+/-- The history of the former finding F61 — `a.l`'s first partner is not a
+`List` trait (the call raises TraitError but leaves its registration), its
+second is — and a mixed removal: the items handler is registered with the first
+`List` partner, survives the removal of the non-`List` partner, and goes with
+the last `List` partner. -/
+def mixed : World Int :=
+  ((fresh.link idEnv a (1, "x") false).world.link idEnv a c true).world
+
+example :
+    (fresh.link idEnv a (1, "x") false).exc = some .traitError ∧
+    mixed.partners a = [(1, "x"), c] ∧ a ∈ mixed.hooked ∧ HookOk idEnv mixed ∧
+    (mixed.mutate idEnv a (.append 1)).world.val c = .l [1] ∧
+    a ∈ (mixed.unlink idEnv a (1, "x") false).hooked ∧
+    ((mixed.unlink idEnv a (1, "x") false).mutate idEnv a (.append 1)).world.val c = .l [1] ∧
+    a ∉ (mixed.unlink idEnv a c true).hooked ∧
+    (mixed.unlink idEnv a c true).partners a = [(1, "x")] := by decide
 
 /-- A hub with two partners (one mutual with an alias, one one-way): the
 hypotheses of `C20_noRevisit_hub`, `C20_converge_scalar` and `C20_one_way`. -/
